@@ -221,6 +221,13 @@ func zoneTexts(g *hc.Gen, o *hc.Out, pr *hc.Proc, n int) {
 		if ok {
 			got = hc.EncTime(t)
 		}
+		if !isFixed && ok && (t.Year() < 1971 || t.Year() > 2037) {
+			// a tz-database zone far in the past or future: the zone's offset and abbreviation at the result (local mean
+			// time, historical rules) are not what a zone abbreviation written in the text refers to — the model gets ONE
+			// (offset, abbreviation) pair per reading; such readings are compared under the fixed zones only
+			o.Count("sdtz:outside:tzdb_zone_outside_1971_2037")
+			return t, ok
+		}
 		o.Case("c06.sdtz "+sessTok(off, abbr, fmts)+" x"+hc.Hex(text), got)
 		return t, ok
 	}
@@ -282,7 +289,7 @@ func zoneTexts(g *hc.Gen, o *hc.Out, pr *hc.Proc, n int) {
 						text = w.In(oz).Format(f.layout)
 					}
 					t, ok := read(z, loc, li == 0, nil, text)
-					if f.prec > 0 && !(strings.Contains(f.layout, " 06 ") && (w.Year() < 1969 || w.Year() > 2068)) {
+					if f.prec > 0 && !(strings.Contains(f.layout, " 06 ") && (w.Add(-26*time.Hour).Year() < 1969 || w.Add(26*time.Hour).Year() > 2068)) { // two-digit years: the year written in ANY zone must lie in 1969..2068
 						want(z, nil, text, t, ok, w, f.layout)
 					}
 					o.NonTrivial(fmt.Sprintf("sdtz:%s:%d:%d:%v", z.label, li, fi, ok))
@@ -297,7 +304,7 @@ func zoneTexts(g *hc.Gen, o *hc.Out, pr *hc.Proc, n int) {
 			for k := 0; k < n/400+3; k++ {
 				for li, loc := range locs {
 					wall := randomWall(g, loc)
-					if zf.y2 && (wall.Year() < 1969 || wall.Year() > 2068) {
+					if zf.y2 && (wall.Add(-26*time.Hour).Year() < 1969 || wall.Add(26*time.Hour).Year() > 2068) {
 						wall = wall.AddDate(2000-wall.Year(), 0, 0)
 					}
 					for fi, f := range zf.fmts {
